@@ -146,6 +146,66 @@ def lex(src):
         raise
 
 
+class Reference:
+    """the lexer crate linked by the binding, driven directly (py/refdump): what the extension returns must be what
+    that crate returns for the same text"""
+
+    def __init__(self):
+        self.path = os.path.join(HERE, "build", "refdump")
+        self.proc = None
+        self.available = os.path.exists(self.path)
+
+    def get(self, src):
+        """(tag, payload) with tag 0 ok / 1 lexer error / 2 panic or crash; None if there is no reference"""
+        if not self.available:
+            return None
+        try:
+            data = src.encode("utf-8")
+        except UnicodeEncodeError:
+            return None
+        for _ in range(2):
+            if self.proc is None or self.proc.poll() is not None:
+                self.proc = subprocess.Popen([self.path], stdin=subprocess.PIPE, stdout=subprocess.PIPE, stderr=subprocess.DEVNULL)
+            try:
+                self.proc.stdin.write(len(data).to_bytes(4, "little") + data); self.proc.stdin.flush()
+                head = self.proc.stdout.read(5)
+                if len(head) < 5:
+                    raise BrokenPipeError
+                n = int.from_bytes(head[1:], "little")
+                body = self.proc.stdout.read(n)
+                if len(body) < n:
+                    raise BrokenPipeError
+                return head[0], body
+            except (BrokenPipeError, OSError):
+                # the reference process died on this input (stack overflow, abort): that is "no result" there
+                try:
+                    self.proc.kill()
+                except Exception:
+                    pass
+                self.proc = None
+                return 2, b""
+        return 2, b""
+
+
+REF = Reference()
+
+
+def first_difference(a, b, path="payload"):
+    if type(a) is not type(b) and not (isinstance(a, (bytes, bytearray)) and isinstance(b, (bytes, bytearray))):
+        return f"{path}: {type(a).__name__} {a!r:.60} vs {type(b).__name__} {b!r:.60}"
+    if isinstance(a, list):
+        if len(a) != len(b):
+            return f"{path}: {len(a)} vs {len(b)} entries"
+        for i, (x, y) in enumerate(zip(a, b)):
+            d = first_difference(x, y, f"{path}[{i}]")
+            if d:
+                return d
+        return None
+    if isinstance(a, float):
+        return None if (a == b and math.copysign(1.0, a) == math.copysign(1.0, b)) or (a != a and b != b) else f"{path}: {a!r} vs {b!r}"
+    return None if a == b else f"{path}: {a!r:.80} vs {b!r:.80}"
+
+
 def check(src, must_return, given_raw=None):
     """returns (violations [(rule, signature, message)], nontrivial, labels)"""
     v = []
@@ -171,6 +231,24 @@ def check(src, must_return, given_raw=None):
         return [("decode", "decode", f"payload is not valid msgpack: {e}")], True, labels
     if end != len(raw) or not (isinstance(val, list) and len(val) == 3):
         return [("decode", "decode:not-a-3-array", f"payload does not decode into a 3-array (decoded {type(val).__name__}, consumed {end}/{len(raw)})")], True, labels
+    # differential: the same text through the linked lexer crate without Python in between
+    ref = REF.get(src) if given_raw is None else None
+    if ref is None:
+        labels.append("reference:none")
+    elif ref[0] != 0:
+        labels.append("reference:no-result-there")
+    elif ref[1] == raw:
+        labels.append("reference:identical-bytes")
+    else:
+        try:
+            rv, rend = mp.unpack(ref[1])
+            d = first_difference([val], [rv])
+        except Exception as e:
+            d = f"reference payload does not decode: {e}"
+        if d:
+            v.append(("reference", "reference:differs", f"the extension's result differs from what the linked lexer crate returns for the same text: {d} (extension vs crate)"))
+        else:
+            labels.append("reference:equal-after-decoding")
     toks, errs, lit = val
     if not isinstance(toks, list) or not isinstance(errs, list) or not isinstance(lit, (bytes, bytearray)):
         return [("decode", "decode:member-types", f"expected (list, list, bytes), got ({type(toks).__name__}, {type(errs).__name__}, {type(lit).__name__})")], True, labels
@@ -336,6 +414,15 @@ def check(src, must_return, given_raw=None):
     return v, nontrivial, labels
 
 
+class _Disguised(str):
+    def __str__(self):
+        return "redacted;"
+    __repr__ = __str__
+
+    def __format__(self, spec):
+        return "redacted;"
+
+
 def api_half(src, toks, errs, lit, labels):
     """the package's public function must hand Python code exactly the payload, as objects of its Token / Error classes"""
     if API is None:
@@ -344,7 +431,12 @@ def api_half(src, toks, errs, lit, labels):
             return [("api", "api:" + API_NOTE.split(" line")[0], f"the Python package cannot be used: {API_NOTE}")]
         return []
     try:
-        res = API.lex_program_from_str(src)
+        # a str subclass instance is a str: what is lexed must be its characters, whatever its __str__ says
+        if len(src) % 4 == 1:
+            labels.append("api-half:str-subclass-with-own-__str__")
+            res = API.lex_program_from_str(_Disguised(src))
+        else:
+            res = API.lex_program_from_str(src)
     except MemoryError:
         raise
     except BaseException as e:
@@ -551,7 +643,7 @@ def enum_half():
 FRAGS = [" ", "\n", ";", "a", "b1", "1", "2.5", "'s'", "'it''s'", "\"d\"", "\"a\"\"b\"", "\"", "'", "/*c*/", "/*", "*", "* c;", "%*c;", "&mv", "&mv.", "&&a&b", "%m", "%m(", "(", ")", ",", "=",
          "%let", "%let a=1;", "%put", "%if", "%then", "%else", "%do", "%to", "%end", "%macro", "%mend", "%eval(", "%str(", "%nrstr(", "%scan(", "%sysfunc(", "%local", "%goto", "%lbl:",
          "datalines;", "cards4;", ";;;;", "$f.", "eq", "%'", "%\"", "%%", "%(", "%)", "x", "'41'x", "\"4a\"X", "'4'x", "é", "😀", " ", ".", "data", "run", "\r\n", "\t", "1e3", "0fx", "1e",
-         "'a'd", "\"&a\"dt", "'n'n", "/", "&&", "18446744073709551616", "﻿", "中", "%sysevalf(", "%upcase(", "%bquote(", "%qscan(", "%include", "%return", "%abort", ":", "+", "-", "<=", "||"]
+         "'a'd", "\"&a\"dt", "'n'n", "/", "&&", "18446744073709551616", "9223372036854775808", "18446744073709551615", "9223372036854775807", "0FFFFFFFFFFFFFFFFx", "08000000000000000x", "1e308", "1e-320", "0.1", "123456789012345678", "﻿", "中", "%sysevalf(", "%upcase(", "%bquote(", "%qscan(", "%include", "%return", "%abort", ":", "+", "-", "<=", "||"]
 
 text_strategy = st.one_of(
     st.lists(st.sampled_from(FRAGS), min_size=1, max_size=14).map("".join),
@@ -758,6 +850,10 @@ def main():
     sized.append("  x = 'a''b';\n" * 22000)
     sized.append("data a; x = 'it''s'; y = 1.5e3; run;\n" * 9000)
     sized += ["x = 'it''s';", "", ";", "data a; run;"]
+    # numeric payloads at the edges of the integer and float encodings
+    sized += [f"x = {n};" for n in ("127", "128", "255", "256", "65535", "65536", "4294967295", "4294967296", "9223372036854775807", "9223372036854775808", "18446744073709551615", "18446744073709551616",
+                                    "0FFFFFFFFFFFFFFFFx", "07FFFFFFFFFFFFFFFx", "08000000000000000x", "1e308", "1.7976931348623157e308", "1e309", "4.9e-324", "1e-400", "0.0", "16777217.0", "3.4028235e38", "0.1", "1.", ".5e1")]
+    sized += [f"%let a=%eval({n}+1); %let b=%sysevalf({n}*1.5);" for n in ("9223372036854775807", "9223372036854775808", "18446744073709551615", "0FFx", "4294967296")]
     for p in sized:
         for rule, sig, msg in account(p, False, "size-boundary"):
             violations.append((p, False, rule, sig, msg, "size-boundary"))
@@ -832,7 +928,7 @@ def main():
         "coverage": {
             "evaluations": stats["evaluations"],
             "distinct_nontrivial": len(stats["nontrivial"]),
-            "rule": "cases: construct-grammar programs and generated soups exported by the Rust harness (same generators as C01-C15), the real-world .sas files, Hypothesis text (fragment lists, weighted characters, arbitrary Unicode), token / error / literal-buffer counts around 2^4, 2^8, 2^16 and a payload above 1 MiB followed by small programs, every code point below U+0530 and a selection of higher ones at the start / end / inside a literal of a small program, all through the real extension module (numeric payloads must also carry the value their spelling has); plus the finite comparison of the committed enum/class modules with the build script's output; distinct = distinct source; non-trivial = the result has an error, a numeric/string payload, or the source has a non-ASCII character",
+            "rule": "cases: construct-grammar programs and generated soups exported by the Rust harness (same generators as C01-C15), the real-world .sas files, Hypothesis text (fragment lists, weighted characters, arbitrary Unicode), token / error / literal-buffer counts around 2^4, 2^8, 2^16 and a payload above 1 MiB followed by small programs, every code point below U+0530 and a selection of higher ones at the start / end / inside a literal of a small program, all through the real extension module and, as a differential, through a plain Rust program that links the same lexer crate as the binding (py/refdump: the two results must be equal) (numeric payloads must also carry the value their spelling has); plus the finite comparison of the committed enum/class modules with the build script's output; distinct = distinct source; non-trivial = the result has an error, a numeric/string payload, or the source has a non-ASCII character",
             "samples": list(stats["samples"].values()),
             "exhaustive": False,
             "enum_files_compared": files_compared,
